@@ -12,7 +12,7 @@
 From Coq Require Import ZArith List String Bool Permutation.
 Import ListNotations.
 From TK Require Import Par_Model Par_Spec Par_Proof Par_Region_Model Par_Region_Proof Par_Region_Gen
-  Par_Fill_Model Par_Fill_Proof Par_Row_Model Par_Row_Proof Par_Weight_Model Par_Weight_Proof Par_Example Omp.
+  Par_Fill_Model Par_Fill_Proof Par_Row_Model Par_Row_Proof Par_Weight_Model Par_Weight_Proof Par_Event_Proof Par_Example Omp.
 
 (* ---------------------------------------------------------------- generic theorems (once) *)
 
@@ -386,3 +386,40 @@ Example c15_heap_restore_example : forall asg p0 sch qs st,
   run_sched key_eqb sch (init_queues heap_body asg, mkState ex_m0 p0 []) = (qs, st) ->
   ~ race qs /\ (done qs -> sh st (dm 0 0) = 7%Z /\ sh st (dm 1 1) = 8%Z).
 Proof. exact Par_Example.ex_heap_restore. Qed.
+
+(* ---------------------------------------------------------------- what the private-variable classes mean *)
+
+(* T21 the class of a thread-private variable is COMPUTED in Coq (classify) from the events the translator
+   lists (c15_gen_regions_ok checks that it agrees with the translator's).  At whole-object granularity,
+   for every choice of which conditional events execute, the abstract program of the events satisfies
+   PInit     => the hypothesis of T2 (nothing is read before it is written),
+   PConst    => the body leaves the state unchanged            } the hypotheses of T20 with P = {x}
+   PRestored => the variable is canonical when the body ends   } *)
+Theorem c15_classify_init_sound :
+  forall (K V C : Type) (x : K) (v : V) (f : V -> V) (canon : V) evs, classify evs = PInit ->
+  forall take, reinit (fun _ => False) (prog_of K V C x v f canon evs take).
+Proof. exact Par_Event_Proof.classify_init_sound. Qed.
+Print Assumptions c15_classify_init_sound.
+
+Theorem c15_classify_const_sound :
+  forall (K : Type) (K_eqb : K -> K -> bool) (V C : Type) (x : K) (v : V) (f : V -> V) (canon : V) evs,
+  classify evs = PConst ->
+  forall take t i (st : state K V C),
+    run K_eqb t i (prog_of K V C x v f canon evs take) st = st /\
+    reinit (fun y => y = x) (prog_of K V C x v f canon evs take).
+Proof. exact Par_Event_Proof.classify_const_sound. Qed.
+Print Assumptions c15_classify_const_sound.
+
+Theorem c15_classify_restored_sound :
+  forall (K : Type) (K_eqb : K -> K -> bool), (forall a b, K_eqb a b = true <-> a = b) ->
+  forall (V C : Type) (x : K) (v : V) (f : V -> V) (canon : V) evs, classify evs = PRestored ->
+  forall take t i (st : state K V C),
+    pr (run K_eqb t i (prog_of K V C x v f canon evs take) st) t x = canon /\
+    reinit (fun y => y = x) (prog_of K V C x v f canon evs take).
+Proof. exact Par_Event_Proof.classify_restored_sound. Qed.
+Print Assumptions c15_classify_restored_sound.
+
+Theorem c15_gen_regions_classified : forall r, In r regions ->
+  forall p, In p (r_private r) -> p_class p = classify (p_events p) /\ p_class p <> PStale.
+Proof. exact Par_Region_Gen.gen_regions_classified. Qed.
+Print Assumptions c15_gen_regions_classified.
